@@ -18,7 +18,7 @@ def pgTypeArms : List (List String × String × String) := [
   (["pg_catalog.time", "pg_catalog.timetz"], "time.Time", "sql.NullTime"),
   (["pg_catalog.timestamp", "pg_catalog.timestamptz", "timestamptz"], "time.Time", "sql.NullTime"),
   (["text", "pg_catalog.varchar", "pg_catalog.bpchar", "string"], "string", "sql.NullString"),
-  (["uuid"], "uuid.UUID", "uuid.NullUUID"),
+  (["uuid"], "uuid.UUID", "uuid.UUID"),
   (["inet", "cidr"], "net.IP", "net.IP"),
   (["macaddr", "macaddr8"], "net.HardwareAddr", "net.HardwareAddr"),
   (["ltree", "lquery", "ltxtquery"], "string", "sql.NullString"),
